@@ -25,7 +25,7 @@ var compactSizes = []int{0, 1, 64, 512, 4096, 128 * 1024}
 
 func genC10(seed uint64, tier string) *Case {
 	g := NewRng(seed)
-	c := &Case{P: map[string]int64{"compact": int64(compactSizes[g.Intn(len(compactSizes))])}}
+	c := &Case{P: map[string]int64{"compact": int64(compactSizes[g.Intn(len(compactSizes))]), "legacy": int64(g.Pick(0, 0, 0, 1))}}
 	n := 5 + g.Intn(50)
 	if tier == "thorough" {
 		n = 5 + g.Intn(200)
@@ -98,6 +98,13 @@ func execC10(r *Run) {
 	minCompact := int(r.C.P["compact"])
 	img := map[string][]byte{}
 	m := &eventModel{st: newSnapState()}
+	if r.C.P["legacy"] == 1 {
+		img[snapPath] = []byte(legacySnapshot)
+		for _, line := range strings.Split(strings.TrimSuffix(legacySnapshot, "\n"), "\n") {
+			m.st.applyLine(line, false)
+		}
+		r.Fault("ignored-records-in-snapshot")
+	}
 	newline := hasNewlineName(r.C.Steps)
 	var sr *snapRun
 	open := func(ctx string) bool {
@@ -146,7 +153,7 @@ func execC10(r *Run) {
 
 func genC11(seed uint64, tier string) *Case {
 	g := NewRng(seed)
-	c := &Case{P: map[string]int64{"compact": int64(compactSizes[g.Intn(len(compactSizes)-1)]), "gens": int64(1 + g.Intn(3))}}
+	c := &Case{P: map[string]int64{"compact": int64(compactSizes[g.Intn(len(compactSizes)-1)]), "gens": int64(1 + g.Intn(3)), "legacy": int64(g.Pick(0, 0, 0, 1))}}
 	n := 4 + g.Intn(30)
 	if tier == "thorough" {
 		n = 4 + g.Intn(60)
@@ -155,15 +162,24 @@ func genC11(seed uint64, tier string) *Case {
 	for gi := 0; gi < gens; gi++ {
 		c.Steps = append(c.Steps, genSnapEvents(g, n/gens+2, false)...)
 		if gi < gens-1 {
-			c.Steps = append(c.Steps, Step{Op: "crash", K: g.Intn(1 << 20), F: g.Bool(0.5)})
+			c.Steps = append(c.Steps, Step{Op: "crash", K: g.Intn(1 << 20), F: g.Bool(0.5), I: g.Pick(0, 0, 1)})
 		}
 	}
 	return c
 }
 
+// legacySnapshot is a snapshot file as an older release (or a hand edit) may have left it:
+// records this release ignores (a coordinate line, an unrecognised line) between the
+// ones it reads. Recovery skips them; nothing else about the file may change.
+const legacySnapshot = "alive: old-1 10.0.9.1:7946\nclock: 4\ncoordinate: {\"Vec\":[0.1,0.2],\"Error\":1.5}\nevent-clock: 2\nnot a record of this release\nquery-clock: 3\n"
+
 func execC11(r *Run) {
 	minCompact := int(r.C.P["compact"])
 	img := map[string][]byte{}
+	if r.C.P["legacy"] == 1 {
+		img[snapPath] = []byte(legacySnapshot)
+		r.Fault("ignored-records-in-snapshot")
+	}
 	// split into generations
 	var gens [][]Step
 	var crashes []Step
@@ -254,12 +270,21 @@ func execC11(r *Run) {
 				r.Fail("written-state-lost", key, "generation %d crash point %d (after %s; files %s): recovered state #%d %s but %d lines (state #%d %s) had been written before the crash", gi, k, cp.op, imageString(cp.img), j, got.key(), need, need, states[need].key())
 				return
 			}
-			if !cp.torn && j < best {
-				r.Fail("recovery-not-monotone", "C11 not-monotone", "generation %d crash point %d (after %s): recovered state #%d although an earlier crash point recovered #%d", gi, k, cp.op, j, best)
-				return
-			}
-			if !cp.torn && j > best {
-				best = j
+			if !cp.torn {
+				// the same state may have been held several times (a member joins and fails
+				// again): monotone means SOME occurrence at or after the best one so far
+				jm := -1
+				for i := best; i < len(states); i++ {
+					if states[i].key() == got.key() {
+						jm = i
+						break
+					}
+				}
+				if jm < 0 {
+					r.Fail("recovery-not-monotone", "C11 not-monotone", "generation %d crash point %d (after %s): recovered state #%d although an earlier crash point recovered #%d", gi, k, cp.op, j, best)
+					return
+				}
+				best = jm
 			}
 		}
 		r.NonTrivial = true
@@ -274,6 +299,15 @@ func execC11(r *Run) {
 			for off := 0; off < len(rec.points); off++ {
 				if p := rec.points[(cs.K+off)%len(rec.points)]; p.torn {
 					pick = p
+					break
+				}
+			}
+		}
+		if cs.I == 1 { // bias: prefer a crash in the middle of a compaction (temporary file left behind)
+			for off := 0; off < len(rec.points); off++ {
+				if p := rec.points[(cs.K+off)%len(rec.points)]; len(p.img[snapPath+".compact"]) > 0 {
+					pick = p
+					r.Fault("crash-mid-compaction-chosen")
 					break
 				}
 			}
@@ -310,11 +344,15 @@ func genC12(seed uint64, tier string) *Case {
 	n := 4 + g.Intn(25)
 	c.Steps = genSnapEvents(g, n, false)
 	c.Steps = append(c.Steps, Step{Op: "post"})
-	// post-fault history: must contain a membership change and a clock change
-	c.Steps = append(c.Steps, Step{Op: "adv", D: int64(31 * time.Second)})
+	// post-fault history: must contain a membership change and a clock change. The fault has
+	// cleared by then (it is a single failing operation); how much time passes before the
+	// next changes is drawn: none, a second, or more than the snapshotter's own 30 s pause
+	// between recovery attempts
+	gaps := []int64{0, int64(time.Second), int64(31 * time.Second)}
+	c.Steps = append(c.Steps, Step{Op: "adv", D: gaps[g.Intn(3)]})
 	c.Steps = append(c.Steps, Step{Op: "clk", U: 2}, Step{Op: "ev", S: "join", T: "post-fault-member", J: g.Intn(len(snapIPs)), K: 1000})
 	c.Steps = append(c.Steps, genSnapEvents(g, 2+g.Intn(6), false)...)
-	c.Steps = append(c.Steps, Step{Op: "adv", D: int64(31 * time.Second)})
+	c.Steps = append(c.Steps, Step{Op: "adv", D: gaps[g.Intn(3)]})
 	c.Steps = append(c.Steps, Step{Op: "clk", U: 1}, Step{Op: "ev", S: "join", T: "post-fault-member-2", J: g.Intn(len(snapIPs)), K: 1000})
 	c.Steps = append(c.Steps, Step{Op: "ev", S: "user", U: 1000}, Step{Op: "ev", S: "query", U: 1000})
 	// which op indices to fault: K=-1 means every op of the fault-free run
